@@ -57,13 +57,31 @@ structure C where
   ctr       : Nat := 0                        -- `message.gPacketID`
 deriving Repr
 
-/-- `onPublish` in the client role: look up the callbacks registered for the topic and call each.
+/-- the inner loop `for j := i + 1 …` of `onPublish`: the highest QoS among `q` and the later
+entries of the same callback -/
+def maxQos (cb : Nat) (q : Nat) : List (Nat × Nat) → Nat
+  | [] => q
+  | x :: rest => maxQos cb (if x.1 == cb && x.2 > q then x.2 else q) rest
+
+/-- the dispatch loop of `onPublish` in the client role (`p.client`): an entry of `p.subs` whose
+callback pointer occurred earlier in the list (`subscriberIn(p.subs[:i], s)`) is skipped; the
+first entry of every callback stays and takes the highest QoS of that callback's entries (the
+order of `p.subs` comes out of a map iteration).  `seen` are the callbacks of the entries passed. -/
+def firstPerCb (seen : List Nat) : List (Nat × Nat) → List (Nat × Nat)
+  | [] => []
+  | s :: rest =>
+    if seen.contains s.1 then firstPerCb seen rest
+    else (s.1, maxQos s.1 s.2 rest) :: firstPerCb (s.1 :: seen) rest
+
+/-- `onPublish` in the client role: look up the callbacks registered for the topic and call each
+once, with the highest QoS its matching filters allow.  A callback identifier stands for the `&onPublish` pointer that `service.subscribe`
+allocates per call: it identifies the Subscribe *request* (every request has its own).
 The RETAIN flag is handed on as received (`sr := !p.client && msg.Retain()` is false in this
 role: only a broker clears the flag for its live fan-out, `Model.Broker.fanoutLive`). -/
 def onPublish (c : C) (p : Pub) : List Out :=
   match c.topics.subscribers p.topic p.qos with
   | none => []
-  | some subs => subs.map (fun s => Out.deliver s.1 { p with qos := s.2 })
+  | some subs => (firstPerCb [] subs).map (fun s => Out.deliver s.1 { p with qos := s.2 })
 
 def completeOut (tag : Nat) (err : Bool) : List Out := if tag == 0 then [] else [.complete tag err]
 
